@@ -14,6 +14,25 @@ def T(name, profile, n, invariants, **kw):
     return d
 
 
+def EDG(name, invariants, ops=None, states=(25, 0), reads=(30, 250), writes=(0, 0), **kw):
+    """TLC-generated inputs: distinct model states x operation instances (quick: seeded sample)."""
+    d = {"kind": "edges", "name": name, "module": "MC_L1", "cfg": "MC_L1_gen_quick.cfg",
+         "cfg_thorough": "MC_L1_gen_thorough.cfg", "invariants": invariants, "ops": ops,
+         "states": states, "reads": reads, "writes": writes, "workers": 12, "heap": "8g"}
+    d.update(kw)
+    return d
+
+
+def MC(name, module, cfg, cfg_thorough=None, **kw):
+    d = {"kind": "mc", "name": name, "module": module, "cfg": cfg}
+    if cfg_thorough:
+        d["cfg_thorough"] = cfg_thorough
+    d.update(kw)
+    return d
+
+
+MC_PROPS = MC("l1-props", "MC_L1", "MC_L1_props_quick.cfg", "MC_L1_props.cfg", workers=12)
+
 PLANS = {}
 REPLAYS = {}
 
@@ -24,6 +43,7 @@ PLANS["C01"] = {
         T("reads", "reads", (60, 1500), ["InvC01"]),
         T("general", "general", (30, 800), ["InvC01"]),
         T("extremes", "extremes", (12, 300), ["InvC01"]),
+        EDG("edges", ["InvC01"], ops=["Derived"]),
     ],
 }
 
@@ -32,7 +52,8 @@ PLANS["C06"] = {
     "assumptions": L1_ASSUME,
     "stages": [
         T("audit", "audit", (60, 1500), ["InvAudit"]),
-        T("general", "general", (30, 800), ["InvAudit", "InvReadsPure"]),
+        T("general", "general", (30, 800), ["InvAudit"]),
+        EDG("edges", ["InvAudit"], states=(30, 0), reads=(1, 1), writes=(25, 150)),
     ],
 }
 
@@ -43,6 +64,7 @@ PLANS["C08"] = {
         T("sort", "sort", (60, 1500), ["InvC08"]),
         T("extremes", "extremes", (15, 300), ["InvC08"]),
         T("floats", "floats", (15, 300), ["InvC08"]),
+        EDG("edges", ["InvC08"], ops=["Derived"]),
     ],
 }
 
@@ -50,7 +72,8 @@ PLANS["C09"] = {
     "level": "model_checking",
     "assumptions": L1_ASSUME,
     "stages": [
-        T("derived", "derived", (60, 1500), ["InvC09", "InvReadsPure"]),
+        T("derived", "derived", (60, 1500), ["InvC09"]),
+        EDG("edges", ["InvC09"], ops=["Derived", "ListIndexes", "ListCollections"]),
     ],
 }
 
@@ -67,6 +90,7 @@ PLANS["C13"] = {
     "assumptions": L1_ASSUME,
     "stages": [
         T("catalog", "catalog", (60, 1500), ["InvC13"]),
+        MC_PROPS,
     ],
 }
 
